@@ -124,6 +124,20 @@ def layout(spec, layer=0):
     for ch_s, mboff in spec.get("sb_slots", {}).items():
         ch = int(ch_s)
         buf = bytearray((cr * spb + 7) // 8) if cr * spb <= (1 << 23) else bytearray(MB)
+        for b_s, (per, ph) in spec.get("bitmap_rules", {}).items():  # compact bitmaps of huge blocks: bit i = ((i + ph) // per) % 2
+            b = int(b_s)
+            if b // cr != ch:
+                continue
+            import math
+
+            L = math.lcm(2 * per, 8)
+            chunk = bytearray(L // 8)
+            for i in range(L):
+                if ((i + ph) // per) % 2:
+                    chunk[i // 8] |= 1 << (i % 8)
+            start = ((b % cr) * spb) // 8
+            nbytes = spb // 8
+            buf[start:start + nbytes] = (bytes(chunk) * (nbytes // len(chunk) + 1))[:nbytes]
         for b_s, bits in spec.get("bitmaps", {}).items():
             b = int(b_s)
             if b // cr != ch:
@@ -156,7 +170,14 @@ def write_disk(spec, path, layer=0):
         for off, d in layout(spec, layer):
             fh.seek(off)
             if isinstance(d, tuple):
-                fh.write(d[1](0, d[0]))
+                if d[0] > (8 << 20):
+                    # huge block in a real (sparse) file: only the windows the request grid of large-block disks touches are written
+                    # (first MiB, the MiB around the middle, last MiB); everything else stays a hole
+                    for w0 in (0, d[0] // 2 - (MB // 2), d[0] - MB):
+                        fh.seek(off + w0)
+                        fh.write(d[1](w0, MB))
+                else:
+                    fh.write(d[1](0, d[0]))
                 top = max(top, off + d[0])
             else:
                 fh.write(d)
@@ -180,7 +201,8 @@ def guest_bytes(spec, off, n, layer=0):
         if st == 6:
             out += pattern_bytes(layer, b, x % bs, take)
         elif st == 7:
-            bit = spec["bitmaps"][str(b)][sib]
+            rule = spec.get("bitmap_rules", {}).get(str(b))
+            bit = (((sib + rule[1]) // rule[0]) % 2) if rule else spec["bitmaps"][str(b)][sib]
             out += pattern_bytes(layer, b, x % bs, take) if bit else guest_bytes(spec["parent"], x, take, layer + 1)
         elif st == 0 and spec.get("parent"):
             out += guest_bytes(spec["parent"], x, take, layer + 1)
@@ -276,6 +298,36 @@ def gen_specs(rng: random.Random, n, hints=None):
                 par["parent_name"] = "parent2.vhdx"
                 par["parent"] = _mk(rng, ss, bs, nb, sp["size"], False)
         out.append(sp)
+    # always: one disk with more payload blocks than the chunk ratio whose block states change exactly at the chunk boundaries (a run of
+    # empty blocks up to the boundary, a present block right after the interleaved sector-bitmap entry)
+    bs = 1 << 28
+    cr = ((1 << 23) * 512) // bs
+    nb = rng.choice([cr + 2, 2 * cr + 1])
+    sp = _mk(rng, 512, bs, nb, nb * bs - rng.choice([0, 512 * 5]), False)
+    for c in range(1, (nb + cr - 1) // cr):
+        if c * cr < nb:
+            sp["states"][c * cr - 2] = rng.choice([0, 2, 3])
+            sp["states"][c * cr - 1] = 0 if c == 1 else rng.choice([0, 1, 2, 3])  # state 0 is also what the interleaved entry of a non-differencing disk holds
+            sp["states"][c * cr] = 6
+    out.append(sp)
+    # always: a differencing disk with more payload blocks than the chunk ratio and partially present blocks in the first AND in a later
+    # chunk (the sector-bitmap entry of chunk c sits at BAT index (c + 1) * chunk_ratio + c, after that chunk's payload entries)
+    nb = cr + 2
+    sp = _mk(rng, 512, bs, nb, nb * bs, True)
+    spb = bs // 512
+    for b in range(nb):
+        if sp["states"][b] == 7 and b not in (1, cr + 1):
+            sp["states"][b] = rng.choice([0, 6])
+            sp["bitmaps"].pop(str(b), None)
+    for b in (1, cr + 1):
+        sp["states"][b] = 7
+        per = rng.choice([3, 8, 9, 64])
+        ph = rng.randrange(per)
+        sp.setdefault("bitmap_rules", {})[str(b)] = [per, ph]
+        sp["bitmaps"].pop(str(b), None)
+    sp["parent_name"] = "parent1.vhdx"
+    sp["parent"] = _mk(rng, 512, bs, nb, sp["size"], False)
+    out.append(sp)
     return out
 
 
@@ -314,6 +366,14 @@ def requests(spec, rng, limit=40):
                 if o < size:
                     reqs.append((o, l))
         reqs.append((size - 3 * ss, 10 * ss))
+        for b_s in list(spec.get("bitmaps", {})) + list(spec.get("bitmap_rules", {})):  # partially present blocks: sector runs at the start, somewhere inside and at the end of the block
+            base = int(b_s) * bs
+            for o in (0, 5 * ss, 70 * ss + 3, bs // 2 - 9 * ss, bs - 20 * ss):
+                reqs += [(base + o, 21 * ss), (base + o + 100, 1500)]
+        cr = ((1 << 23) * ss) // bs
+        for c in range(1, spec["nblocks"] // cr + 1):  # every crossing of a chunk boundary (the BAT has an interleaved entry there)
+            if c * cr < spec["nblocks"]:
+                reqs += [(c * cr * bs - 2 * ss, 4 * ss), (c * cr * bs - 700, 1500), (c * cr * bs - 16384, 32768)]
         return reqs
     reqs = [(0, size), (0, size + 100), (size, 10)]
     ns = size // ss
@@ -329,7 +389,8 @@ def requests(spec, rng, limit=40):
 def sector_requests(spec, rng, limit=25):
     size, ss, bs = spec["size"], spec["ss"], spec["bs"]
     if bs >= (1 << 20):
-        return [(b * (bs // ss) - 2, 5) for b in range(1, min(spec["nblocks"], 4))]
+        cr = ((1 << 23) * ss) // bs
+        return [(b * (bs // ss) - 2, 5) for b in list(range(1, min(spec["nblocks"], 4))) + [c * cr for c in range(1, spec["nblocks"] // cr + 1) if c * cr < spec["nblocks"]]]
     ns = (size + ss - 1) // ss
     pairs = [(a, b) for a in range(ns + 1) for b in range(a + 1, ns + 1)]
     rng.shuffle(pairs)
